@@ -21,6 +21,7 @@ CONSTANTS
   Batches = {1, 4}
   Alphabet = "export"
   FwdImpl = "plain"
+  ForkImpl = "own"
   ExpImpl = "memo"
   TupMode = "one"
   WType = "pl"
